@@ -269,6 +269,11 @@ func runC12(c *Ctx) {
 		}
 	}
 
+	if !c.noImports {
+		importRules(c, runC11, map[string]string{"C11.R4": "C12.R8", "C11.R2": "C12.R8", "C11.R3": "C12.R8"},
+			map[string]string{"C12.R8": "offsets and retrieval stay consistent when noise lines are inserted: position accounting, retrieval cut, line reader (shared with C11.R2/R3/R4)"})
+	}
+
 	// ---------- R7 ----------
 	{
 		bad := ""
